@@ -1,10 +1,14 @@
 """C31 — comments, spacing and line directives do not change a cdef's meaning.
 
-Three ties, all on the scratch copy of /repo's working tree:
+Ties (regen on /repo's working tree, the others on the scratch copy of it):
+  regen : coq/C31/Gen.v from cparser.py (tools/props/c31_regen.py): regex sources, statement order of _preprocess and of
+          the front part of Parser._parse (obligations C31_sources_pinned, C31_preprocess_order_tie, C31_parse_front_tie)
   regex : random texts through the real `_r_comment.sub(...)` / `_r_words.findall` vs the Coq scanners
           `sc` / `words` (coq/C31/Model.v)
   pre   : random directive/comment/#define soups through the real `cparser._preprocess` vs the Coq
           `preprocess` (text, macros dict, or the exception class of _put_back_line_directives)
+  ctn   : random word soups through the real `cparser._common_type_names` vs C31.Order.common_type_names (the list of
+          common types is read from the scratch build's cffi.commontypes)
   meta  : the property itself on the real parser: random valid cdefs x random insertions between
           tokens; declarations, constants, sizeof/offsets, emit_c_code()/emit_python_code() text of
           base and variant must be identical.  gcc -E -dD is asked whether base and variant are the
@@ -17,10 +21,26 @@ import re
 import subprocess
 import time
 
-from lib import vlib
+from lib import vlib, py2coq
 from lib.vlib import cstr, clist, cpair, cn
+from props import c31_regen
 
 ID = "C31"
+
+
+def regen(ctx):
+    """coq/C31/Gen.v from /repo's cparser.py: regex pattern texts + flags, the statements of _preprocess,
+    _remove/_put_back_line_directives, _common_type_names and of the front part of Parser._parse, in source order.
+    Fail closed: when the source no longer has the expected shape the snapshot stays and run() reports a broken
+    obligation."""
+    path = os.path.join(vlib.COQ, "C31", "Gen.v")
+    try:
+        text = c31_regen.translate(vlib.REPO)
+    except (c31_regen.RegenError, OSError) as e:
+        ctx.translator("C31/Gen.v", "fallback: %s" % e)
+        ctx.extra["c31_regen_error"] = str(e)
+        return
+    ctx.translator("C31/Gen.v", py2coq.write_if_changed(path, text))
 
 # ----------------------------------------------------------------------------- random texts
 
@@ -36,6 +56,15 @@ PRE_FIXED = ["/*\n*/#line@7\nint y;", "/**/# 5", "/*\n*/#line@-1\n# 5\n", "/*\n*
              "/*\n*/#line@-2\n# 5\n", "# \\\n define \\\n X 1\n", "#define\\\nX 1", "#\\define X 1", "int\fx;\r\n#define Y 2\r\n"]
 
 
+# word soups for _common_type_names' state machine (typedef statements, commas inside and outside parentheses, names
+# that are discarded from look_for_words -- also ';' ',' '(' ')' 'typedef' themselves can be discarded)
+CTN_FRAGS = ["typedef", "typedef", ";", ";", ",", ",", "(", ")", "size_t", "uint8_t", "FILE", "bool", "wchar_t", "ssize_t",
+             "int", "x", "*", "struct", "{", "}", "typedefs", "size_tt", "_Bool", "uint8_t", "size_t", "// ", "/*", "*/"]
+CTN_FIXED = ["// typedef unsigned char uint8_t;\nuint8_t x;", "typedef ; ; typedef int size_t ; size_t", "typedef ( ; ( size_t ) ;",
+             "typedef int a , size_t , ( uint8_t , b ) , FILE ; size_t uint8_t FILE", "typedef typedef ; typedef size_t ;",
+             "size_t , typedef , ; size_t", "typedef int (*size_t)(uint8_t, bool); size_t bool"]
+
+
 def gen_regex_cases(ctx):
     rng, out = ctx.rng, [dict(kind="pre", text=t) for t in PRE_FIXED]
     for _ in range(ctx.n(400, 7000)):
@@ -45,6 +74,10 @@ def gen_regex_cases(ctx):
         out.append(dict(kind="words", text="".join(rng.choice(WORD_ALPHABET) for _ in range(rng.randrange(0, 20)))))
     for _ in range(ctx.n(400, 7000)):
         out.append(dict(kind="pre", text="".join(rng.choice(PRE_FRAGS) for _ in range(rng.randrange(0, 13)))))
+    out += [dict(kind="ctn", text=t) for t in CTN_FIXED]
+    for _ in range(ctx.n(300, 5000)):
+        out.append(dict(kind="ctn", text="".join(rng.choice(CTN_FRAGS) + rng.choice(["", " ", " ", "\n"])
+                                                 for _ in range(rng.randrange(0, 16)))))
     return out
 
 
@@ -758,6 +791,30 @@ def text_of(s):
 def evaluate(ctx, cases):
     s = ctx.scratch()
     rx = [c for c in cases if c["kind"] in ("comment", "words", "pre")]
+    ctn = [c for c in cases if c["kind"] == "ctn"]
+    if ctn:
+        out, p = s.run_worker("c31_worker.py", dict(op="regex", cases=ctn), timeout=600)
+        if out is None:
+            ctx.violation(ctn[0], "ctn worker failed: " + (p.stderr[-1500:] or p.stdout[-500:]))
+            return
+        common = [k for k in out["common"] if all(ord(ch) < 128 for ch in k)]
+        tl = lambda ws: "[" + "; ".join(text_of(w) for w in ws) + "]" if ws else "(@nil (list N))"
+        pairs = []
+        for c, r in zip(ctn, out["results"]):
+            ctx.count()
+            ctx.hist("ctn_found", len(r))
+            if "typedef" in c["text"] and r:
+                ctx.nontrivial(("ctn", c["text"]))
+            pairs.append((text_of(c["text"]), tl(r)))
+        bad, outs, err = vlib.coq_mismatches(["C31.Model", "C31.Order"], "ctn_eval common_types",
+                                             "list_eqb (list_eqb N.eqb)", pairs, shard=2500,
+                                             prelude="Definition common_types : list (list N) := %s." % tl(common))
+        if err:
+            ctx.obligation_broken("C31 model evaluation (ctn)", err)
+        for i in bad:
+            ctx.mismatch(ctn[i], "model %s, implementation %r" % (outs.get(i), out["results"][i]),
+                         "C31.Order.common_type_names vs cparser._common_type_names")
+        ctx.sample(dict(ctn[0], impl=out["results"][0]))
     meta = [c for c in cases if c["kind"] == "meta"]
     if rx:
         out, p = s.run_worker("c31_worker.py", dict(op="regex", cases=rx), timeout=600)
@@ -838,36 +895,68 @@ def evaluate(ctx, cases):
 def run(ctx):
     ctx.cov["rule"] = ("regex: random texts over comment-critical alphabets through the real _r_comment.sub / _r_words.findall / "
                        "_preprocess vs the Coq scanners (non-trivial = output differs from input or macros/exception produced); "
+                       "ctn: word soups of typedef ; , ( ) and common type names through the real _common_type_names vs the "
+                       "Coq state machine (non-trivial = contains 'typedef' and a name is found); "
                        "meta: random valid cdefs (typedefs, structs/unions with bitfields and nested aggregates, enums with "
                        "constant expressions, functions, globals, constants, #define, partial '...' forms, extern \"Python\", "
                        "calling conventions, common type names) x random fillers between all tokens (blanks, tabs, newlines, "
-                       "/* */ with and without newlines, // comments, '# N \"file\"' / #line directives, backslash-newline in "
-                       "#define), accepted by gcc -E as the same token sequence; non-trivial = base parses and variant text "
+                       "/* */ with and without newlines, // comments -- comment texts are C-looking: keywords, typedef statements and "
+                       "prose about the common type names the cdef uses, punctuation, quotes --, '# N \"file\"' / #line "
+                       "directives, backslash-newline in #define), accepted by gcc -E as the same token sequence; non-trivial = base parses and variant text "
                        "differs; distinct by (base, variant).")
     ctx.assumptions += [
-        "hand-written scanners in C31/Model.v stand for the regular expressions of cparser.py; tied to Python's re by this "
-        "run's differential tests (ASCII texts)",
+        "hand-written scanners in C31/Model.v stand for the regular expressions of cparser.py; their pattern texts and flags "
+        "are pinned through the regenerated C31/Gen.v and their behaviour is tied to Python's re by this run's differential "
+        "tests (ASCII texts)",
+        "C31/Order.v maps each regenerated statement text of _preprocess / Parser._parse to the model function it stands "
+        "for; the '...' / __stdcall / extern \"Python\" statements are identity stages (outside the model's domain)",
         "pycparser's lexer/parser is not modelled: the meaning-preservation of insertions past _preprocess is tested "
         "(metamorphic), not proved",
         "gcc -E -dD decides whether an insertion is 'between tokens' for a C compiler"]
+    if ctx.extra.get("c31_regen_error"):
+        ctx.obligation_broken("C31/Gen.v regeneration: cparser.py no longer has the shape the model was written for",
+                              ctx.extra["c31_regen_error"])
     evaluate(ctx, generate(ctx))
 
 
 MANIFEST = dict(
     technique="Coq proof about an executable model of cparser's textual pre-processing (comment scanner, word scanner, "
-              "#define extraction, line-directive stash/restore) + differential tie of every scanner to Python's re and to "
-              "the real _preprocess + metamorphic test of the real parser with gcc -E as token-equivalence oracle",
+              "#define extraction, line-directive stash/restore, _common_type_names' state machine, the front part of "
+              "Parser._parse) + C31/Gen.v regenerated from cparser.py on every run (regex pattern texts and flags, the "
+              "statement lists of _preprocess / _remove_line_directives / _put_back_line_directives / _common_type_names / "
+              "Parser._parse's front part, interpreted by C31/Order.v) + differential tie of every scanner to Python's re, to "
+              "the real _preprocess and to the real _common_type_names + metamorphic test of the real parser with gcc -E as "
+              "token-equivalence oracle",
     text="Partial. Proved (all texts, unbounded): comment stripping preserves the number of newlines (C31_newlines_preserved) and "
-         "is compositional at cuts outside comments; a /* */ comment, a // comment with its newline, white space, or any "
+         "is compositional at cuts outside comments (C31_scanner_compositional); a /* */ comment, a // comment with its "
+         "newline (C31_block_comment_is_space, C31_line_comment_is_space), white space, or any "
          "sequence of these inserted at such a cut is replaced by white space only, so the \\w+|\\S word sequence seen by the "
          "later steps is unchanged (C31_insertion_keeps_words), including line ends when the filler has no newline "
-         "(C31_inline_insertion_keeps_lines); \\r \\f \\v become blanks without changing the words; a backslash-newline or "
-         "blanks inside a #define value leave the macro value unchanged; stash and restore of line directives is the identity "
-         "and the placeholder is inert for the comment scanner; the composed model of _preprocess returns plain declarations "
-         "unchanged (C31_preprocess_plain) and returns a line directive inserted between two lines of plain declarations "
-         "verbatim (C31_directive_insertion_plain). The composed statement for arbitrary fillers is false "
-         "(C31_full_statement_refuted; known findings). Tested, not proved: everything past _preprocess (pycparser), the "
-         "'...' / extern \"Python\" / __stdcall rewriting, directive insertion next to comments or #define lines.",
-    note="Trusted: Coq kernel; hand model C31/Model.v of the regular expressions (tied by differential testing against re on "
-         "every run, ASCII only); gcc -E as oracle for token equivalence; pycparser not modelled.",
+         "(C31_inline_insertion_keeps_lines); \\r \\f \\v become blanks without changing the words and none is left "
+         "(C31_normalize_keeps_words, C31_normalize_removes); a backslash-newline or blanks inside a #define value leave the "
+         "macro value unchanged (C31_define_continuation, C31_macro_value_blanks: statements about the value group / "
+         "macro_value, not lifted to the whole _preprocess); stash and restore of line directives is the identity "
+         "(C31_line_directives_roundtrip) and the '#line@N' placeholder is inert for the comment scanner "
+         "(C31_placeholder_inert); the composed model of _preprocess returns plain declarations unchanged "
+         "(C31_preprocess_plain), returns a line directive inserted between two lines of plain declarations verbatim "
+         "(C31_directive_insertion_plain), and on every text without '#' -- comments allowed -- returns the text with its "
+         "comments replaced by white space, no macros, no error (C31_preprocess_hashfree, C31_preprocess_hashfree_norm); "
+         "hence for '#'-free cdefs an insertion of comments/white space between tokens changes neither the words handed on "
+         "nor the macros (C31_insertion_preprocess_hashfree: first composed statement with comments) nor the set of common "
+         "type names that Parser._parse pre-declares to pycparser, whatever the comment says, for every set of common types "
+         "and earlier typedefs (C31_ctn_words_only, C31_typenames_comment_invariant, C31_parse_front_comment_invariant). "
+         "Regenerated and proved on every run: executing the statement list of _preprocess found in the source IS the "
+         "model's preprocess (C31_preprocess_order_tie), executing the front part of Parser._parse IS parse_front, i.e. "
+         "_preprocess runs before _common_type_names and the latter scans the comment-free text (C31_parse_front_tie); the "
+         "five pattern texts, their flags and the statements of the stash/restore functions and of _common_type_names are "
+         "the ones the model was written for (Example C31_sources_pinned). The composed statement for arbitrary fillers is "
+         "false (C31_full_statement_refuted; known findings). Tested, not proved: everything past _preprocess (pycparser), "
+         "the '...' / extern \"Python\" / __stdcall rewriting (identity stages in Order.v), comments or directives next to "
+         "#define lines and directives next to comments in the composed model, cdefs with '#' in the comment-insertion "
+         "theorems.",
+    note="Trusted: Coq kernel; hand models C31/Model.v, C31/Order.v of the regular expressions and of _common_type_names "
+         "(pattern texts/flags/statements pinned through the regenerated C31/Gen.v, behaviour tied by differential testing "
+         "against re, _preprocess and _common_type_names on every run, ASCII only); the translator c31_regen.py "
+         "(ast.unparse of top-level statements; fail closed); Order.v's table mapping statement texts to model functions; "
+         "gcc -E as oracle for token equivalence; pycparser not modelled.",
     design_ref="DESIGN.md §4 C31")
